@@ -16,7 +16,7 @@ func init() {
 			if err != nil {
 				return nil, nil, nil, err
 			}
-			cov := bfsCoverage(out, "states x methods x requests: 20 (the 9 named below + wallet lagging behind queued tips, lagging behind a node-side reorg, pending incoming payment, after a completed removal, after an import batch, restart with coins, extra addresses, pending spend whose conflict confirmed, binding and staking withdrawn, a relayed (policy-invalid, stress input) binding output with a target of unknown type) reachable wallet states; per-method request cap 20000 (quick) / 60000 (thorough) (selected-empty, not-selected after restart, with mature coins, pending spend, spent coin, importing, removing, after reorg, staking+binding coins) x every APIServer method taking a request (28; 11 node-only methods excluded, see assumptions) x the FULL product of small per-field domains "+
+			cov := bfsCoverage(out, "states x methods x requests: 23 (the 9 named below + the selected wallet removed, the withdrawal of a staking and of a binding deposit reorganised away, wallet lagging behind queued tips, lagging behind a node-side reorg, pending incoming payment, after a completed removal, after an import batch, restart with coins, extra addresses, pending spend whose conflict confirmed, binding and staking withdrawn, a relayed (policy-invalid, stress input) binding output with a target of unknown type) reachable wallet states; per-method request cap 20000 (quick) / 60000 (thorough) (selected-empty, not-selected after restart, with mature coins, pending spend, spent coin, importing, removing, after reorg, staking+binding coins) x every APIServer method taking a request (28; 11 node-only methods excluded, see assumptions) x the FULL product of small per-field domains "+
 				"derived from the request type by reflection (ids: own/other/unknown/empty/short/over-long; txids: unspent/spent/pending/unknown/non-hex/empty/short; indexes 0/1/5/2^32-1; amounts 1/0/1e-8/supply/huge/-1/abc/empty/9 significant decimals/9-10 decimals with trailing zeros/trailing dot/leading dot/exponent/blank/sign/hex/comma/full-width digit; addresses own/second/foreign/staking/stranger/garbage/empty/over-long; 6 sighash flags + 2 invalid; passphrases right/other/empty/short/long/wrong; hex blobs valid/truncated/empty/odd/non-hex/zeros; maps and lists empty/1/2/duplicate/garbage/nil element), "+
 				"largest domains trimmed until the product is <= the cap; every call under recover() with FATAL-exit trapping, then a liveness probe of the follower; plus 12 malformed relayed transactions per state; a state here is one (wallet state, method) pair, a transition its complete request product (info.calls)")
 			cov["bounds"] = map[string]interface{}{"cap_per_method_and_state": cap}
